@@ -98,6 +98,13 @@ func (h *gatedHarness) oracle(f string, a ...any) {
 	}
 }
 
+// oracleAlso records a second clause broken by the operation that has just been reported
+func (h *gatedHarness) oracleAlso(f string, a ...any) {
+	if len(h.st.Oracle) < 40 {
+		h.st.Oracle = append(h.st.Oracle, fmt.Sprintf(f, a...)+" || case: "+strings.Join(h.caseOps, " ; "))
+	}
+}
+
 func (h *gatedHarness) compose(events []*eventlogger.Event) (eventlogger.EventType, interface{}, error) {
 	e := &gemit{fate: "composed"}
 	for _, ev := range events {
@@ -407,6 +414,9 @@ func (h *gatedHarness) exec(line string) string {
 				}
 				if !eqInts(got, open) {
 					h.oracle("C17 %s succeeded; open groups %v but emitted %v", f[0], open, got)
+					if len(got) < len(open) {
+						h.oracleAlso("C11 %s returned successfully with a Broker configured, but of the open groups %v only %v were handed to composition and sent: accepted events were neither composed nor reported as discarded", f[0], open, got)
+					}
 				}
 			} else {
 				if len(h.emits) != 0 {
